@@ -144,6 +144,14 @@ class Term:
         mine, theirs = opaque(self), opaque(o)
         if mine != theirs:
             raise NotSymbolic(f"term has parts the abstraction does not interpret: {sorted(mine ^ theirs)[0][:120]}")
+        # a call the evaluator has no meaning for (operator.add, a new helper, a method) is an uninterpreted function
+        # symbol: equal spellings are equal, but a symbol on one side only decides nothing
+        def heads(t):
+            import re as _re
+            return {h for a in t.atoms() for h in _re.findall(r"([A-Za-z_][\w.]*)\(", a)} - _VOCABULARY
+        hm, ht = heads(self), heads(o)
+        if hm != ht:
+            raise NotSymbolic(f"call the abstraction has no meaning for: {sorted(hm ^ ht)[0][:80]}")
         return False
 
     def is_const(self):
@@ -209,6 +217,9 @@ _FUNC_ALIASES = {
     "float": None, "Decimal": None, "int": None,   # numeric casts are transparent
 }
 _CONSTS = {"np.e": "E", "math.e": "E", "np.pi": "PI", "math.pi": "PI"}
+_VOCABULARY = {v for v in _FUNC_ALIASES.values() if v} | {"pow", "rule"}
+_OPERATOR_MODULE = {"operator.add": "+", "operator.sub": "-", "operator.mul": "*", "operator.truediv": "/", "operator.neg": "neg", "operator.pos": "pos",
+                    "np.add": "+", "np.subtract": "-", "np.multiply": "*", "np.divide": "/", "np.true_divide": "/", "np.negative": "neg"}
 
 
 class SymEval:
@@ -303,7 +314,15 @@ class SymEval:
             if alias == "abs" and len(targs) == 1 and targs[0].is_const():
                 return Term.const(abs(targs[0].const_value()))
             return func(alias, *targs)
-        if fn in ("np.power", "numpy.power", "pow", "math.pow") and len(n.args) == 2:
+        if fn in _OPERATOR_MODULE and not n.keywords:
+            op = _OPERATOR_MODULE[fn]
+            targs = [self.ev(a) for a in n.args]
+            if op in ("neg", "pos") and len(targs) == 1:
+                return -targs[0] if op == "neg" else targs[0]
+            if len(targs) == 2:
+                a, b = targs
+                return a + b if op == "+" else a - b if op == "-" else a * b if op == "*" else a / b
+        if fn in ("np.power", "numpy.power", "pow", "math.pow", "operator.pow") and len(n.args) == 2:
             a, b = self.ev(n.args[0]), self.ev(n.args[1])
             if b.is_const() and b.const_value().denominator == 1 and abs(b.const_value()) <= 8:
                 return a ** int(b.const_value())
